@@ -2468,6 +2468,23 @@ func (d *Data) MoveElement(ctx *datastore.VersionedCtx, from, to dvid.Point3d, k
 	}
 
 	deleteElement := (bytes.Compare(fromTk, toTk) != 0)
+
+	// A move onto a position that already holds an element would leave two elements at one
+	// position or silently replace the occupant while tags and partners still refer to it.
+	if !from.Equals(to) {
+		occupants := fromElems
+		if deleteElement {
+			if occupants, err = getElements(ctx, toTk); err != nil {
+				return err
+			}
+		}
+		for _, elem := range occupants {
+			if to.Equals(elem.Pos) {
+				return fmt.Errorf("cannot move element %s onto %s, which already holds an element", from, to)
+			}
+		}
+	}
+
 	moved, _ := fromElems.move(from, to, deleteElement)
 	if moved == nil {
 		return fmt.Errorf("Did not find moved element %s in datastore", from)
